@@ -165,6 +165,8 @@ def gen_cases(tier, seed):
                 args.append(o)
         if r.random() < 0.15:
             args += ["--reflink", r.choice(["never", "auto"])]
+        if r.random() < 0.08:
+            args.append(r.choice(["-v", "-vv", "-vvv"]))
         if r.random() < 0.2:
             args += ["--block-size", r.choice(["512", "4096", "1MB"])]
         if has_dir:
